@@ -361,4 +361,204 @@ theorem extend_build_merge (env : Env) (X : List TypeDef) (t : TypeDef) (bt r : 
   | enum => exact link_enum env X t bt r hkk hb hm hk hn.2.2.1
   | input => exact link_input env X t bt r hkk hb hm hk hn.2.1
 
+/-! ### assembling: `build_exact_partial` (documents WITH extensions, finding S8 excluded) -/
+
+theorem mapM_congr_mem {α β} (f g : α → R β) : ∀ (l : List α), (∀ x ∈ l, f x = g x) → l.mapM f = l.mapM g := by
+  intro l
+  induction l with
+  | nil => intro _; rfl
+  | cons x xs ih =>
+    intro h
+    rw [List.mapM_cons, List.mapM_cons, h x (by simp), ih (fun y hy => h y (by simp [hy]))]
+
+theorem mapM_map_eq {α β γ} (g : α → β) (f : β → R γ) : ∀ (l : List α), (l.map g).mapM f = l.mapM (fun x => f (g x)) := by
+  intro l
+  induction l with
+  | nil => rfl
+  | cons x xs ih => rw [List.map_cons, List.mapM_cons, List.mapM_cons, ih]
+
+/-- pointwise relation between two lists of the same length -/
+inductive All₂ {α β} (P : α → β → Prop) : List α → List β → Prop
+  | nil : All₂ P [] []
+  | cons {a b as bs} : P a b → All₂ P as bs → All₂ P (a :: as) (b :: bs)
+
+theorem mapM_forall₂ {α β} (f : α → R β) : ∀ (l : List α) (r : List β), l.mapM f = .ok r → All₂ (fun x y => f x = .ok y) l r := by
+  intro l
+  induction l with
+  | nil => intro r h; simp [pure, Except.pure] at h; subst h; exact All₂.nil
+  | cons x xs ih =>
+    intro r h
+    rw [List.mapM_cons] at h
+    obtain ⟨b, hb, h2⟩ := bind_ok _ _ _ h
+    obtain ⟨bs, hbs, h3⟩ := bind_ok _ _ _ h2
+    simp only [pure, Except.pure, Except.ok.injEq] at h3
+    subst h3
+    exact All₂.cons hb (ih bs hbs)
+
+/-- pointwise link ⇒ link of the whole registries -/
+theorem mapM_link {α β γ} (P : α → β → Prop) (Q : α → γ → Prop) (h : β → R γ) :
+    ∀ (l : List α) (bs : List β) (rs : List γ), All₂ P l bs → All₂ Q l rs →
+      (∀ a b r, a ∈ l → r ∈ rs → P a b → Q a r → h b = .ok r) → bs.mapM h = .ok rs := by
+  intro l
+  induction l with
+  | nil => intro bs rs h1 h2 _; cases h1; cases h2; rfl
+  | cons a as ih =>
+    intro bs rs h1 h2 hl
+    cases h1 with
+    | cons p1 t1 =>
+      cases h2 with
+      | cons q1 t2 =>
+        rw [List.mapM_cons, hl a _ _ (by simp) (by simp) p1 q1]
+        rw [ih _ _ t1 t2 (fun a' b r ha hr => hl a' b r (by simp [ha]) (by simp [hr]))]
+        rfl
+
+theorem buildTypeDef_name (env : Env) (t : TypeDef) (bt : TypeD) (h : buildTypeDef env t = .ok bt) : bt.name = t.name := by
+  unfold buildTypeDef at h
+  cases hk : t.kind <;> simp only [hk] at h
+  · have := ok_inj h; subst this; rfl
+  · obtain ⟨_, _, h1⟩ := bind_ok _ _ _ h
+    obtain ⟨_, _, h2⟩ := bind_ok _ _ _ h1
+    have := ok_inj h2; subst this; rfl
+  · obtain ⟨_, _, h1⟩ := bind_ok _ _ _ h
+    have := ok_inj h1; subst this; rfl
+  · obtain ⟨_, _, h1⟩ := bind_ok _ _ _ h
+    have := ok_inj h1; subst this; rfl
+  · obtain ⟨_, _, h1⟩ := bind_ok _ _ _ h
+    obtain ⟨_, _, h2⟩ := bind_ok _ _ _ h1
+    have := ok_inj h2; subst this; rfl
+  · obtain ⟨_, _, h1⟩ := bind_ok _ _ _ h
+    have := ok_inj h1; subst this; rfl
+
+theorem forall₂_names (env : Env) : ∀ (l : List TypeDef) (bs : List TypeD),
+    All₂ (fun t bt => buildTypeDef env t = .ok bt) l bs → bs.map (·.name) = l.map (·.name) := by
+  intro l bs h
+  induction h with
+  | nil => rfl
+  | cons p _ ih => simp [buildTypeDef_name env _ _ p, ih]
+
+theorem typeExtensions_all (live : Live) : ∀ (doc : Doc),
+    (∀ e ∈ typeExts doc, live.types.any (·.name == e.name) = true) → typeExtensions live doc = typeExts doc := by
+  intro doc
+  induction doc with
+  | nil => intro _; rfl
+  | cons d ds ih =>
+    intro h
+    cases d with
+    | ext e =>
+      have he : live.types.any (·.name == e.name) = true := h e (by simp [typeExts])
+      have := ih (fun e' he' => h e' (by simp [typeExts] at he' ⊢; exact Or.inr he'))
+      simp only [typeExtensions, typeExts, List.filterMap_cons, he, Bool.or_true, if_true] at this ⊢
+      rw [this]
+    | type t => simpa [typeExtensions, typeExts] using ih (by simpa [typeExts] using h)
+    | directive t => simpa [typeExtensions, typeExts] using ih (by simpa [typeExts] using h)
+    | schema t => simpa [typeExtensions, typeExts] using ih (by simpa [typeExts] using h)
+    | schemaExt t => simpa [typeExtensions, typeExts] using ih (by simpa [typeExts] using h)
+    | other => simpa [typeExtensions, typeExts] using ih (by simpa [typeExts] using h)
+
+theorem nodup_map_inj {α} (f : α → String) : ∀ (l : List α), (l.map f).Nodup → ∀ x ∈ l, ∀ y ∈ l, f x = f y → x = y := by
+  intro l
+  induction l with
+  | nil => intro _ x hx; simp at hx
+  | cons a as ih =>
+    intro hn x hx y hy hxy
+    simp only [List.map_cons, List.nodup_cons] at hn
+    rcases List.mem_cons.mp hx with rfl | hx' <;> rcases List.mem_cons.mp hy with rfl | hy'
+    · rfl
+    · exact absurd (List.mem_map.mpr ⟨y, hy', hxy.symm⟩) hn.1
+    · exact absurd (List.mem_map.mpr ⟨x, hx', hxy⟩) hn.1
+    · exact ih hn.2 x hx' y hy' hxy
+
+/-- The rules for a document WITH extensions. `baseBuilds`, `mergedSame` and `directivesSame` are **NoS8**: the
+    definitions build on their own, and every merged definition / directive definition builds to the same thing
+    whether default literals are coerced over the definitions alone (what the builder does) or over the merged
+    definitions (what the specification says) — i.e. no default value refers to a member that only an extension
+    declares. -/
+structure ValidExt (doc : Doc) (d : SchemaD) (bts : List TypeD) : Prop where
+  uniqueTypes : ((typeDefs doc).map (·.name)).Nodup
+  uniqueDirectives : ((dirDefs doc).map (·.name)).Nodup
+  oneSchema : (schemaDefs doc).length ≤ 1
+  noBuiltinNames : ∀ t ∈ typeDefs doc, isDefaultName t.name = false
+  /-- every extension extends a defined type of its own kind -/
+  extTargets : ∀ e ∈ typeExts doc, ∃ t ∈ typeDefs doc, t.name = e.name ∧ t.kind = e.kind
+  declares : Declared doc = some d
+  baseBuilds : (typeDefs doc).mapM (buildTypeDef (Env.of (typeDefs doc))) = .ok bts
+  mergedSame : ∀ t ∈ typeDefs doc, buildTypeDef (Env.of (typeDefs doc)) (mergeDef (typeExts doc) t)
+                                  = buildTypeDef (Env.of (merged doc)) (mergeDef (typeExts doc) t)
+  directivesSame : ∀ dd ∈ dirDefs doc, buildDirective (Env.of (typeDefs doc)) dd = buildDirective (Env.of (merged doc)) dd
+  /-- no member name is repeated among a definition and its extensions -/
+  membersUnique : ∀ r ∈ d.types, (r.fields.map (·.name)).Nodup ∧ (r.inputFields.map (·.name)).Nodup ∧ (r.values.map (·.name)).Nodup ∧
+      r.members.Nodup ∧ r.interfaces.Nodup
+  noThunkCycle : hasThunkCycle (Env.of (typeDefs doc)) (typeDefs doc) = false
+  noEagerCycleBase : hasEagerCycle bts = false
+  noEagerCycle : hasEagerCycle d.types = false
+  noSpecified : d.directives.any (fun x => specifiedDirectives.contains x.name) = false
+  /-- operations of the `schema` block and of the `extend schema` blocks are distinct and name known types -/
+  rootsOk : ∃ r0, buildRoots (Env.of (typeDefs doc)) (schemaDefs doc).head? bts = .ok r0 ∧
+      (schemaExtensions doc).foldlM (fun r se => addOps (fun n => isDefaultName n || d.types.any (·.name == n)) (.lib .ext) r se.ops) r0
+        = .ok ⟨d.query, d.mutation, d.subscription⟩
+
+/-- **build_exact_partial**: a valid document WITH extensions in which no default value depends on an
+    extension-declared member (finding S8 excluded) builds, and the schema is exactly the declared content: every
+    extension merged into its target in document order. -/
+theorem build_exact_partial (doc : Doc) (d : SchemaD) (bts : List TypeD) (v : ValidExt doc d bts) : build doc = .ok d := by
+  obtain ⟨c, hc, hct, hcd, hcs⟩ := collect_ok doc v.uniqueTypes v.uniqueDirectives v.oneSchema
+  obtain ⟨hts, hds, hd⟩ := declared_parts doc d v.declares
+  obtain ⟨r0, hr0, hrx⟩ := v.rootsOk
+  -- directive definitions
+  have hdirs : (dirDefs doc).mapM (buildDirective (Env.of (typeDefs doc))) = .ok d.directives := by
+    rw [mapM_congr_mem _ _ _ v.directivesSame]; exact hds
+  -- the definitions alone
+  have hbt := mapM_buildType (typeDefs doc) (typeDefs doc) bts v.noBuiltinNames v.baseBuilds
+  have hP := mapM_forall₂ _ _ _ v.baseBuilds
+  have hnames := forall₂_names _ _ _ hP
+  -- every extension finds its target among the built types
+  have htexts : ∀ live : Live, live.types = bts → typeExtensions live doc = typeExts doc := by
+    intro live hl
+    apply typeExtensions_all
+    intro e he
+    obtain ⟨t, ht, hn, _⟩ := v.extTargets e he
+    rw [hl, List.any_eq_true]
+    have : e.name ∈ bts.map (·.name) := by rw [hnames, ← hn]; exact List.mem_map_of_mem ht
+    obtain ⟨bt, hbt1, hbt2⟩ := List.mem_map.mp this
+    exact ⟨bt, hbt1, by simp [hbt2]⟩
+  -- the merged definitions, over the builder's environment
+  have hQ : All₂ (fun t r => buildTypeDef (Env.of (typeDefs doc)) (mergeDef (typeExts doc) t) = .ok r) (typeDefs doc) d.types := by
+    have h1 : (typeDefs doc).mapM (fun t => buildTypeDef (Env.of (typeDefs doc)) (mergeDef (typeExts doc) t)) = .ok d.types := by
+      rw [mapM_congr_mem _ (fun t => buildTypeDef (Env.of (merged doc)) (mergeDef (typeExts doc) t)) _ v.mergedSame]
+      rw [← mapM_map_eq]; exact hts
+    exact mapM_forall₂ _ _ _ h1
+  have hext : bts.mapM (extendType (Env.of (typeDefs doc)) (typeExts doc)) = .ok d.types := by
+    refine mapM_link _ _ _ _ _ _ hP hQ ?_
+    intro t bt r ht hr hb hm
+    refine extend_build_merge _ _ t bt r hb hm ?_ (v.membersUnique r hr)
+    intro e he hne
+    obtain ⟨t', ht', hn', hk'⟩ := v.extTargets e he
+    have : t' = t := nodup_map_inj (·.name) _ v.uniqueTypes t' ht' t ht (hn'.trans hne)
+    rw [← hk', this]
+  have hthunk := v.noThunkCycle
+  have hcyc0 := v.noEagerCycleBase
+  have hcyc := v.noEagerCycle
+  have hspec := v.noSpecified
+  simp only [build, buildIgnoringExtensions, hc, bind, Except.bind, buildCollected, failIf, hct, hcd, hcs, hthunk, hdirs, hbt,
+    filterMap_id_map_some, hcyc0, hr0, hspec, Bool.false_eq_true, if_false, pure, Except.pure, referencedAdditional,
+    List.filter_nil, List.append_nil, extendSchema]
+  rw [htexts _ rfl]
+  by_cases hE : ((typeExts doc).isEmpty && (schemaExtensions doc).isEmpty) = true
+  · -- no extension at all: the early return of extend_schema
+    simp only [hE, if_true, toSchemaD]
+    simp only [Bool.and_eq_true, List.isEmpty_iff] at hE
+    have hX := hE.1
+    have hS := hE.2
+    rw [hS] at hrx
+    simp only [List.foldlM_nil, pure, Except.pure] at hrx
+    have er := ok_inj hrx
+    have hm := merged_noext doc hX
+    rw [hm] at hts
+    rw [v.baseBuilds] at hts
+    have eb := ok_inj hts
+    rw [eb, er]
+    exact congrArg Except.ok hd.symm
+  · simp only [hE, Bool.false_eq_true, if_false, hext, hcyc, hrx, toSchemaD]
+    exact congrArg Except.ok hd.symm
+
 end PyGql.Props.C11
